@@ -13,7 +13,7 @@ import XrsVerif.Gen.IL
 
   Also here: list lemmas (`getD_set`), the frame predicate `Mods`, array-read helpers.
 -/
-namespace XrsVerif.IL
+namespace XrsVerif.IL.Px
 open XrsVerif
 variable {F : Type} [Fl F]
 set_option linter.unusedSectionVars false
@@ -283,4 +283,4 @@ theorem N0_wf : N0.WF := Names.pfx_wf _ _ _ _ _ (by decide) (by decide) (by deci
 /-- **the generated `_process_proximity_line` is the template at the plain names** -/
 theorem proximityLine_is_template : Gen.IL.proximityLine.body = lineBody N0 := rfl
 
-end XrsVerif.IL
+end XrsVerif.IL.Px
